@@ -229,7 +229,7 @@ def plan(tier):
     for p in range(16):
         shards.append({"kind": "hist", "part": p, "parts": 16})
     shards.append({"kind": "from-types"})
-    shards += [{"kind": "scale", "part": p, "parts": 8} for p in range(8)]
+    shards += [{"kind": "scale", "part": p, "parts": 16} for p in range(16)]
     return shards
 
 
@@ -267,8 +267,8 @@ def cases(shard, tier):
         for t in (["cat", [leaf([1, 2]), ["rng", leaf([3, 7]), 5]]], ["pad", ["rep", leaf([5, 6, 7, 11]), 3], 3], ["uni", [["rep", leaf([8, 12, 16]), 2**31], leaf([1])]], ["rng", ["cat", [leaf([1, 2]), leaf([0, 8])]], 2**63]):
             cs.append({"kind": "scale", "what": "many-divisors", "tree": t, "n": 300})
         for lf in ([257, 771], [8, 24], [1, 2], [3, 7, 12], [100, 613]):
-            for k in (1025, 1500, 2049, 4097, 2**31 + 7):
-                for d in (513, 771, 1024, 1028, 1543, 2048):
+            for k in (1025, 1500, 2**31 + 7) if tier == "quick" else (1025, 1500, 2049, 4097, 2**31 + 7):
+                for d in (513, 771, 1028) if tier == "quick" else (513, 771, 1024, 1028, 1543, 2048):
                     cs.append({"kind": "scale", "what": "large-count-and-divisor", "leaf": lf, "k": k, "d": d})
         for n in (17, 18, 24, 33, 40, 64, 100):
             cs.append({"kind": "scale", "what": "large-leaves", "n": n})
